@@ -98,7 +98,7 @@ def run(ck):
     shards = vlib.NCPU
     traces = vlib.parallel(lambda i: drive_with_restart(ck, i, shards, ["-in", mp]), range(shards))
     def val(tp):
-        return ck.validate_events("Cells_Trace", "trace/Cells_Trace.cfg", tp, timeout=3000, name="trace_" + os.path.basename(tp)[6:8], heap_gb=6)
+        return ck.validate_events("Cells_Trace", "trace/Cells_Trace.cfg", tp, timeout=3000, name="trace_" + os.path.basename(tp)[6:8], heap_gb=3)
     inputs = set()
     accepted = 0
     for tp, (res, rejected) in zip(traces, vlib.parallel(val, traces, n=8)):
